@@ -149,6 +149,12 @@ func init() {
 			bound: "every field name of the row builder (read from the source) alone and in every ordered pair, in tx, log and trace indexing mode, through the real dig.New -> Filter -> jrpc2.Client.Get -> Integration.Insert against a scripted JSON-RPC node in which every field of every item (2 transactions, 2 trace actions each) has a distinct non-zero value: each stored column must equal the value of the field it names for that very item; plus 30 ordered pairs of data plans on one shared client",
 		})}
 	})
+	boundedChecks["C20"] = append(boundedChecks["C20"], func(w *World, tier string, seed int, verif string) []boundedResult {
+		return []boundedResult{runHarness(w, verif, tier, seed, harnessSpec{
+			name: "tasks-exactly-configured", pkg: "shovel", pkgName: "shovel", dir: "manager", files: []string{"fakepg_test.go", "loadtasks_bounded_test.go"}, run: "TestVerifLoadTasksBounded",
+			bound: "the real loadTasks against an in-memory PostgreSQL stand-in (pgproto3 over net.Pipe): two integration names each absent / enabled / disabled in the file and in the database (81 mixes) x 4 source-reference sets (one source with start and stop, two sources incl. one defined in both file and database, an unknown source, a known plus an unknown source): exactly one task per enabled integration (file wins on a clash) and referenced source, with the source's chain id, batch size and concurrency (file wins) and the reference's start/stop; an unknown source is an error",
+		})}
+	})
 	boundedChecks["C09"] = append(boundedChecks["C09"], func(w *World, tier string, seed int, verif string) []boundedResult {
 		return []boundedResult{runHarness(w, verif, tier, seed, harnessSpec{
 			name: "abi-decode-vs-spec", pkg: "dig", pkgName: "dig", dir: "abi", files: []string{"abi_bounded_test.go"}, run: "TestVerifABIBounded",
